@@ -22,6 +22,7 @@ package patterns
 import (
 	"bytes"
 	"errors"
+	"math"
 	"strings"
 
 	"github.com/snapcore/snapd/logger"
@@ -132,7 +133,12 @@ func (n seq) NumVariants() int {
 	num := 1
 
 	for i := range n {
-		num *= n[i].NumVariants()
+		count := n[i].NumVariants()
+		// saturate instead of overflowing: the result is compared with a limit
+		if count > 0 && num > math.MaxInt/count {
+			return math.MaxInt
+		}
+		num *= count
 	}
 
 	return num
@@ -274,7 +280,12 @@ func (n alt) NumVariants() int {
 	num := 0
 
 	for i := range n {
-		num += n[i].NumVariants()
+		count := n[i].NumVariants()
+		// saturate instead of overflowing: the result is compared with a limit
+		if num > math.MaxInt-count {
+			return math.MaxInt
+		}
+		num += count
 	}
 
 	return num
